@@ -1,9 +1,11 @@
 package main
 
 import (
+	"errors"
 	"fmt"
 	"time"
 
+	"verif/harness/cmd/c02/ss"
 	"verif/harness/fixture"
 )
 
@@ -73,11 +75,58 @@ func runDefect(d *Defect) (string, string, string) {
 			return in, "first-use-refused", "ok"
 		}
 		return in, "ok", "ok"
-	case "respell-gcp":
-		// GCP with disableTrustOnFirstUse: GetTokenID itself returns the hash of the presented string
+	case "usetoken-fault-before", "usetoken-fault-after":
+		// the storage call of the one-time rule fails (before: nothing written; after: the record is written, the caller sees an
+		// error): the request must be refused (fail closed, a 5xx), and over the whole sequence faulted request, replay, replay
+		// after a restart at most one presentation is authorized; after the "after" fault none is (the record exists)
+		hooks := &ss.Hooks{}
+		e := newEnv(true, false, hooks)
+		defer e.close()
+		tok := must(e.ca.Token(fixture.TokenOpts{Subject: "d.example.com"}))
+		armed := true
+		errStore := errors.New("storage failure")
+		if d.Kind == "usetoken-fault-before" {
+			hooks.Before = func(op, key string) error {
+				if op == "usetoken" && armed {
+					armed = false
+					return errStore
+				}
+				return nil
+			}
+		} else {
+			hooks.After = func(op, key string, ok bool, err error) error {
+				if op == "usetoken" && armed {
+					armed = false
+					return errStore
+				}
+				return nil
+			}
+		}
+		_, err1 := e.ca.Auth.Authorize(methodCtx(e.ca.Auth, "sign", false), tok)
+		_, err2 := e.ca.Auth.Authorize(methodCtx(e.ca.Auth, "sign", false), tok)
+		e.restart()
+		_, err3 := e.ca.Auth.Authorize(methodCtx(e.ca.Auth, "sign", false), tok)
+		n := 0
+		for _, err := range []error{err2, err3} {
+			if err == nil {
+				n++
+			}
+		}
+		var sc interface{ StatusCode() int }
+		switch {
+		case err1 == nil:
+			return in, "VIOLATION authorized-although-the-record-could-not-be-stored", "ok"
+		case !errors.As(err1, &sc) || sc.StatusCode() < 500:
+			return in, fmt.Sprintf("storage-failure-not-reported-as-server-error %v", err1), "ok"
+		case n > 1, n == 1 && d.Kind == "usetoken-fault-after":
+			return in, fmt.Sprintf("VIOLATION authorized-after-fault=%d", n), "ok"
+		}
+		return in, "ok", "ok"
+	case "respell-gcp", "respell-aws":
+		// GCP / AWS with disableTrustOnFirstUse: GetTokenID itself returns the hash of the presented string
 		e := newEnv(true, false, nil)
 		defer e.close()
-		m := e.mintTok(&TokSpec{Prov: "gcpr", JTI: "r"}, map[string]string{})
+		m := e.mintTok(&TokSpec{Prov: map[string]string{"respell-gcp": "gcpr", "respell-aws": "awsr"}[d.Kind], JTI: "r"}, map[string]string{})
 		n := 0
 		for i := 0; i < 7; i++ {
 			if _, err := e.ca.Auth.Authorize(methodCtx(e.ca.Auth, "sign", false), spell(m.str, i)); err == nil {
